@@ -353,15 +353,27 @@ impl<'a> Worker<'a> {
             generator_time,
         );
 
-        self.resources
-            .write(work_item.data.output(), &lua_code)
-            .map_err(|err| {
-                // the error may only name a parent directory that could not be created
-                DarkluaError::from(err).context(format!(
-                    "while writing `{}`",
-                    work_item.data.output().display()
-                ))
-            })?;
+        // a file processed in place that already holds the generated code is left alone:
+        // writing it again would tell a watcher that the source has changed once more
+        let is_up_to_date = work_item.data.is_in_place()
+            && self
+                .resources
+                .get(work_item.data.output())
+                .is_ok_and(|current_code| current_code == lua_code);
+
+        if is_up_to_date {
+            log::debug!("`{}` already holds the generated code", source_display);
+        } else {
+            self.resources
+                .write(work_item.data.output(), &lua_code)
+                .map_err(|err| {
+                    // the error may only name a parent directory that could not be created
+                    DarkluaError::from(err).context(format!(
+                        "while writing `{}`",
+                        work_item.data.output().display()
+                    ))
+                })?;
+        }
 
         self.cache
             .link_source_to_output(normalized_source, work_item.data.output());
